@@ -8,7 +8,10 @@ on) and on a directed D19 schedule (the holder is the leader; its two threads su
 `acquire(T1)`, T1 < T2; it applies the first and is cut off before the second commits) and a directed
 `stale` schedule (node X is frozen -- no ticks, nothing delivered -- right after its client submitted a
 prolongation stamped t; the lock clock advances by more than U; Y acquires and prolongs every < U/2; X thaws
-and its old command is committed; Y's node is frozen meanwhile; Z tries; Y thaws):
+and its old command is committed; Y's node is frozen meanwhile; Z tries; Y thaws) and directed `snapshot`
+schedules (a lock is held and prolonged; the leader is forced to compact; a frozen follower is then caught up
+by the leader's snapshot -- or a node writes its dump file and is restarted from it, a new SyncObj and a new
+ReplLockManager on the same file --; the client on the rebuilt node tries the lock):
   * every node's applied lock commands are a prefix of one common sequence (C01 -- reported as a
     disagreement of the plumbing assumption if not) and its lock table equals the Lean model's state after
     that prefix (`driver locks`), the values delivered to `tryAcquire` callbacks included;
@@ -18,7 +21,10 @@ and its old command is committed; Y's node is frozen meanwhile; Z tries; Y thaws
     lock time + U (`KeepMonitor`); in the `stale` schedule the prolonging holder still holds after catching
     up and the competitor was refused."""
 import hashlib
+import os
 import pickle
+import shutil
+import tempfile
 import random as _random
 import time
 
@@ -30,6 +36,7 @@ ORDER = 43
 SIG_REORDER = "batteries.ReplLockManager:stamp-reorder-mutex"
 SIG_MUTEX = "batteries.ReplLockManager:mutex-broken"
 SIG_MUTEX_STALE = "batteries.ReplLockManager:stale-stamp-mutex"
+SIG_MUTEX_SNAPSHOT = "batteries.ReplLockManager:mutex-broken-after-snapshot"
 NAMES = ["a", "b", "c"]
 
 
@@ -45,7 +52,9 @@ class _RandomShim(object):
 
 
 class Cluster(object):
-    def __init__(self, repo, U, seed, use_batch=True):
+    def __init__(self, repo, U, seed, use_batch=True, dumpdir=None):
+        self.dumpdir = dumpdir
+        self.use_batch = use_batch
         self.bat = lc.load_batteries(repo)
         import pysyncobj.syncobj as so
         import pysyncobj.transport as tr
@@ -92,18 +101,83 @@ class Cluster(object):
                 return True
 
         self.mgrs, self.objs = {}, {}
-        for i, n in enumerate(NAMES):
-            mgr = self.bat.ReplLockManager(U, selfID=lc.client_name(i + 1))
-            conf = SyncObjConf(autoTick=False, raftMinTimeout=0.5, raftMaxTimeout=1.5, appendEntriesPeriod=0.125,
-                               appendEntriesUseBatch=use_batch, dynamicMembershipChange=False)
-            obj = SyncObj(Node(n), [Node(o) for o in NAMES if o != n], conf=conf, consumers=[mgr],
-                          transportClass=SimTransport)
-            self.mgrs[n], self.objs[n] = mgr, obj
-            self._instrument(n, obj)
+        self.by_impl, self.by_obj = {}, {}
+        # recording hooks at class level (instance attributes of a consumer / SyncObj would end up in the dumps)
+        impl_cls = self.bat._ReplLockManagerImpl
+        self._orig_deser = impl_cls.__dict__.get("_deserialize")
+        base_deser = impl_cls._deserialize
+
+        def deser(this, data):
+            base_deser(this, data)
+            if id(this) in cluster.by_impl:
+                cluster.on_deserialize(cluster.by_impl[id(this)], this)
+        impl_cls._deserialize = deser
+        self._orig_apply = SyncObj._applyCommand
+
+        def submit(this, command, callback, commandType=None):
+            if id(this) in cluster.by_obj and commandType == so._COMMAND_TYPE.REGULAR:
+                cluster.on_submit(cluster.by_obj[id(this)], command)
+            return cluster._orig_apply(this, command, callback, commandType)
+        SyncObj._applyCommand = submit
+        self.marks = dict((n, []) for n in NAMES)        # (number of commands applied before, kind, table after)
+        self.SimTransport, self.SyncObj, self.SyncObjConf = SimTransport, SyncObj, SyncObjConf
+        for n in NAMES:
+            self.start_node(n)
         for a in NAMES:
             for b in NAMES:
                 if a < b:
                     self.connect(a, b)
+
+    def start_node(self, n):
+        i = NAMES.index(n)
+        mgr = self.bat.ReplLockManager(self.U, selfID=lc.client_name(i + 1))
+        kw = {}
+        if self.dumpdir is not None:
+            kw = dict(fullDumpFile=os.path.join(self.dumpdir, n + ".dump"), useFork=False)
+        conf = self.SyncObjConf(autoTick=False, raftMinTimeout=0.5, raftMaxTimeout=1.5, appendEntriesPeriod=0.125,
+                                appendEntriesUseBatch=self.use_batch, dynamicMembershipChange=False, **kw)
+        self.by_impl[id(mgr._consumer())] = n
+        obj = self.SyncObj(self.Node(n), [self.Node(o) for o in NAMES if o != n], conf=conf, consumers=[mgr],
+                           transportClass=self.SimTransport)
+        self.mgrs[n], self.objs[n] = mgr, obj
+        self.by_obj[id(obj)] = n
+        self._instrument(n, obj)
+
+    def on_deserialize(self, n, impl):
+        foreign = any(e[1] != NAMES.index(n) + 1 and self.clock.now < e[2] + self.U
+                      for o in NAMES if o != n and o in self.mgrs
+                      for e in lc.table_of(self.mgrs[o]._consumer()))
+        self.hit("snapshot.install" + (".while-another-clients-lock-is-held" if foreign else ".no-foreign-lock"))
+        self.marks[n].append((len(self.applied[n]), "snap", lc.table_of(impl)))
+
+    def on_submit(self, n, command):
+        """count the releases this node's own client asks for (user call or the wrapper's late-acquire rule)"""
+        me = NAMES.index(n) + 1
+        try:
+            cmd = pickle.loads(command)
+            if isinstance(cmd, tuple) and cmd[0] in self._bases[n] and self._bases[n][cmd[0]] == "release":
+                a = self._abstract("release", cmd[1])
+                if a[2] == me:
+                    self.rel_submitted[(n, a[1])] = self.rel_submitted.get((n, a[1]), 0) + 1
+        except Exception:
+            pass
+
+    def restart(self, n):
+        """the process of node n is killed and started again: new SyncObj and new ReplLockManager on the same
+        dump file (no journal); connections are re-established"""
+        for o in NAMES:
+            if o != n and (o, n) in self.up:
+                self.disconnect(n, o)
+        try:
+            self.mgrs[n].destroy()
+            self.objs[n].destroy()
+        except Exception:
+            pass
+        self.marks[n].append((len(self.applied[n]), "restart", []))
+        self.frozen.discard(n)
+        self.start_node(n)
+        self.join(n)
+        self.hit("restart")
 
     # -- instrumentation -------------------------------------------------------------------------
     def _abstract(self, name, args):
@@ -129,21 +203,6 @@ class Cluster(object):
                 cluster.applied[n].append((cluster._abstract(_b, args), r))
                 return r
             table[fid] = rec
-        orig = obj._applyCommand
-        me = NAMES.index(n) + 1
-
-        def submit(command, callback, commandType=None, _orig=orig):
-            # count the releases this node's own client asks for (user call or the wrapper's late-acquire rule)
-            try:
-                cmd = pickle.loads(command)
-                if isinstance(cmd, tuple) and cmd[0] in cluster._bases[n] and cluster._bases[n][cmd[0]] == "release":
-                    a = cluster._abstract("release", cmd[1])
-                    if a[2] == me:
-                        cluster.rel_submitted[(n, a[1])] = cluster.rel_submitted.get((n, a[1]), 0) + 1
-            except Exception:
-                pass
-            return _orig(command, callback, commandType)
-        obj._applyCommand = submit
 
     # -- network ------------------------------------------------------------------------------------
     def connect(self, a, b):
@@ -262,6 +321,12 @@ class Cluster(object):
                 self.objs[n]._destroy() if hasattr(self.objs[n], "_destroy") else None
             except Exception:
                 pass
+        impl_cls = self.bat._ReplLockManagerImpl
+        if self._orig_deser is None:
+            del impl_cls._deserialize
+        else:
+            impl_cls._deserialize = self._orig_deser
+        self.SyncObj._applyCommand = self._orig_apply
         self.patch.__exit__(None, None, None)
         self.so.monotonicTime, self.tr.monotonicTime, self.so.random = self.saved
 
@@ -286,10 +351,12 @@ def gen_schedule(rng, U):
             evs.append(("cut", n))
         elif r < 0.95:
             evs.append(("join", n))
-        elif r < 0.98:
+        elif r < 0.97:
             evs.append(("freeze", n))
-        else:
+        elif r < 0.985:
             evs.append(("thaw", n))
+        else:
+            evs.append(("compact", n))
     return evs
 
 
@@ -319,12 +386,37 @@ def d19_schedule(U=10):
             ("run", 60), ("adv", U - 2), ("try_other", 1), ("run", 8), ("adv", 0)]
 
 
+def snapshot_schedule(rng, U):
+    """directed: Y (the leader) holds L1 and prolongs every < U/2; variant `install`: follower Z is frozen, the
+    leader compacts, Z thaws and is caught up by the leader's snapshot; variant `restart`: Z compacts (writes
+    its dump file) and is restarted from it.  Then Z's client tries L1."""
+    step = max(1, U // 2 - 1)
+    variant = rng.choice(("install", "restart"))
+    ev = [("run", 40), ("roles_leader_holds",), ("try_role", "Y", 1), ("run", 6)]
+    if variant == "install":
+        ev += [("freeze_role", "Z")]
+    for _ in range(rng.randrange(2, 5)):
+        ev += [("adv", step), ("tick_role", "Y"), ("run", 4)]
+    if variant == "install":
+        ev += [("compact_role", "Y"), ("run", 6), ("adv", step), ("tick_role", "Y"), ("run", 4), ("thaw_role", "Z"), ("run", 40)]
+    else:
+        ev += [("compact_role", "Z"), ("run", 6), ("adv", step), ("tick_role", "Y"), ("run", 4), ("restart_role", "Z"), ("run", 40)]
+    ev += [("adv", rng.choice((0, 1))), ("try_role", "Z", 1), ("run", 10), ("expect_refused", "Z", 1), ("expect_holds", "Y", 1)]
+    return ev
+
+
+def common_sequence(cl):
+    """the applied commands of a node that never went through a snapshot (longest such), else the longest"""
+    pure = [cl.applied[n] for n in NAMES if not cl.marks[n]]
+    return max(pure or [cl.applied[n] for n in NAMES], key=len)
+
+
 def in_time(cl, U, l=1):
     """precondition of the `stale` expectations, read off what was actually committed: Y's acquire of L was
     granted, Y's later stamps follow in order with gaps < U/2, the last one is less than U/2 ago, Y never
     released (an election may have swallowed a prolongation: then nothing is expected)."""
     y = NAMES.index(cl.roles["Y"]) + 1
-    longest = max((cl.applied[n] for n in NAMES), key=len)
+    longest = common_sequence(cl)
     stamps = None
     for c, r in longest:
         if c == ("rel", l, y):
@@ -340,8 +432,17 @@ def in_time(cl, U, l=1):
     return all(0 <= 2 * (b - a) < U for a, b in zip(stamps, stamps[1:]))
 
 
-def execute(repo, U, seed, evs, use_batch=True, nlk=2):
-    cl = Cluster(repo, U, seed, use_batch=use_batch)
+def execute(repo, U, seed, evs, use_batch=True, nlk=2, dumps=False):
+    dumpdir = tempfile.mkdtemp(prefix="pso-verif-locks-") if dumps else None
+    try:
+        return _execute(repo, U, seed, evs, use_batch, nlk, dumpdir)
+    finally:
+        if dumpdir is not None:
+            shutil.rmtree(dumpdir, ignore_errors=True)
+
+
+def _execute(repo, U, seed, evs, use_batch, nlk, dumpdir):
+    cl = Cluster(repo, U, seed, use_batch=use_batch, dumpdir=dumpdir)
     first = None
     try:
         for idx, ev in enumerate(evs):
@@ -375,9 +476,23 @@ def execute(repo, U, seed, evs, use_batch=True, nlk=2):
                 cl.roles = {"X": fol[0], "Z": fol[1], "Y": L if cl.rng.random() < 0.5 else fol[1]}
                 if cl.roles["Y"] == cl.roles["Z"]:
                     cl.roles["Z"] = L
+            elif k == "roles_leader_holds" and L:
+                fol = [n for n in NAMES if n != L]
+                cl.roles = {"Y": L, "Z": fol[0], "X": fol[1]}
+            elif k == "compact":
+                cl.objs[ev[1]].forceLogCompaction()
+                cl.hit("compact")
+            elif k == "restart":
+                if cl.dumpdir is not None:
+                    cl.restart(ev[1])
             elif k.endswith("_role") and getattr(cl, "roles", None):
                 n = cl.roles[ev[1]]
-                if k == "freeze_role":
+                if k == "compact_role":
+                    cl.objs[n].forceLogCompaction()
+                    cl.hit("compact")
+                elif k == "restart_role":
+                    cl.restart(n)
+                elif k == "freeze_role":
                     cl.frozen.add(n)
                     cl.hit("freeze")
                 elif k == "thaw_role":
@@ -441,7 +556,7 @@ def execute(repo, U, seed, evs, use_batch=True, nlk=2):
                 first = idx
                 break
         if first is None:
-            longest = max((cl.applied[n] for n in NAMES), key=len)
+            longest = common_sequence(cl)
             keep = lc.KeepMonitor(cl.bat, U)
             for c, _ in longest:
                 _, kv, flags = keep.apply(c)
@@ -453,6 +568,7 @@ def execute(repo, U, seed, evs, use_batch=True, nlk=2):
                     first = len(evs) - 1
                     break
         out = {"applied": dict((n, list(cl.applied[n])) for n in NAMES),
+               "marks": dict((n, list(cl.marks[n])) for n in NAMES),
                "tables": dict((n, lc.table_of(cl.mgrs[n]._consumer())) for n in NAMES),
                "answers": [dict(a) for a in cl.answers], "viols": list(cl.viols), "cov": dict(cl.cov), "first": first,
                "leader": cl.leader()}
@@ -462,8 +578,10 @@ def execute(repo, U, seed, evs, use_batch=True, nlk=2):
 
 
 def prefix_check(U, out):
-    """every node's applied lock commands are a prefix of the longest one"""
-    seqs = sorted((out["applied"][n] for n in NAMES), key=len)
+    """every node's applied lock commands (nodes that never went through a snapshot) are a prefix of the longest"""
+    seqs = sorted((out["applied"][n] for n in NAMES if not out["marks"][n]), key=len)
+    if not seqs:
+        return None
     longest = seqs[-1]
     for q in seqs:
         if q != longest[:len(q)]:
@@ -472,38 +590,83 @@ def prefix_check(U, out):
     return None
 
 
+def ret_str(r):
+    return "1" if r is True else "0" if r is False else "-"
+
+
 class ModelBatch(object):
-    """collects (node, applied sequence, table) of many runs; one driver call compares them all"""
+    """collects the runs; one driver call computes the model's state after every prefix of each run's common
+    sequence; every node is then walked through it: plain nodes from position 0, a node that installed a
+    snapshot continues at a position whose model state equals the installed table, a restarted node starts
+    again from the empty state."""
 
     def __init__(self):
         self.lines, self.items = [], []
 
     def add(self, U, out, extra):
-        for n in NAMES:
-            seq = out["applied"][n]
-            lines = ["conf %d 1" % U] + [" ".join(str(x) for x in c) for c, _ in seq] + ["dump"]
-            self.items.append((len(self.lines), len(lines), U, n, seq, out["tables"][n], extra))
-            self.lines += lines
+        pure = [out["applied"][n] for n in NAMES if not out["marks"][n]]
+        if not pure:
+            self.items.append(None)
+            return
+        common = max(pure, key=len)
+        lines = ["conf %d 1" % U] + [" ".join(str(x) for x in c) for c, _ in common]
+        self.items.append((len(self.lines), len(lines), U, common, out, extra))
+        self.lines += lines
 
     def check(self, ctx, limit=3):
         res = []
-        if not self.lines:
-            return res
-        rep = ctx.driver("locks", self.lines)
-        for (a, k, U, n, seq, table, extra) in self.items:
-            r = rep[a:a + k]
-            bad = None
-            for (c, ret), line in zip(seq, r[1:]):
-                rs = "1" if ret is True else "0" if ret is False else "-"
-                if line.split(" ")[0] != rs:
-                    bad = (line, rs, "return value of %s on node %s" % (lc.cmd_str(c), n))
-                    break
-            if bad is None and r[-1] != lc.table_str(table):
-                bad = (r[-1], lc.table_str(table), "lock table of node %s after its applied prefix" % n)
-            if bad and len(res) < limit:
-                res.append({"input": dict(extra, U=U, node=n, cmds=[lc.cmd_str(x) for x, _ in seq]),
-                            "model": bad[0], "impl": bad[1], "note": bad[2]})
-        return res
+        stats = {"model.nodes-walked": 0, "model.snapshot-positions-matched": 0, "model.skipped-no-plain-node": 0}
+        rep = ctx.driver("locks", self.lines) if self.lines else []
+        for it in self.items:
+            if it is None:
+                stats["model.skipped-no-plain-node"] += 1
+                continue
+            a, k, U, common, out, extra = it
+            r = rep[a + 1:a + k]                      # reply i = "<ret> <table>" after common[i]
+            rets = [x.split(" ")[0] for x in r]
+            T = ["-"] + [x.split(" ", 1)[1] for x in r]
+            for n in NAMES:
+                bad = self.walk(n, common, rets, T, out["applied"][n], out["marks"][n], out["tables"][n], stats)
+                stats["model.nodes-walked"] += 1
+                if bad and len(res) < limit:
+                    res.append({"input": dict(extra, U=U, node=n, common=[lc.cmd_str(x) for x, _ in common],
+                                              applied=[lc.cmd_str(x) for x, _ in out["applied"][n]],
+                                              marks=[(m, kd, lc.table_str(t)) for m, kd, t in out["marks"][n]]),
+                                "model": bad[0], "impl": bad[1], "note": bad[2]})
+        return res, stats
+
+    @staticmethod
+    def walk(n, common, rets, T, applied, marks, table, stats):
+        pos, idx = 0, 0
+        bounds = [m for m, _, _ in marks] + [len(applied)]
+        for mi in range(len(marks) + 1):
+            end = bounds[mi]
+            while idx < end:                          # commands applied one by one
+                c, ret = applied[idx]
+                if pos >= len(common) or common[pos][0] != c:
+                    return ("next common command %s" % (lc.cmd_str(common[pos][0]) if pos < len(common) else None), lc.cmd_str(c),
+                            "node %s applied a command that is not the next one of the common sequence (position %d)" % (n, pos))
+                if rets[pos] != ret_str(ret):
+                    return (rets[pos], ret_str(ret), "return value of %s on node %s" % (lc.cmd_str(c), n))
+                pos += 1
+                idx += 1
+            if mi == len(marks):
+                break
+            _, kind, tbl = marks[mi]
+            if kind == "restart":
+                pos = 0
+                continue
+            nxt = [c for c, _ in applied[end:bounds[mi + 1]]]
+            cands = [k for k in range(len(T)) if T[k] == lc.table_str(tbl) and [c for c, _ in common[k:k + len(nxt)]] == nxt]
+            if not cands:
+                return ("state after a prefix of %s followed by %s" % ([lc.cmd_str(x) for x, _ in common], [lc.cmd_str(x) for x in nxt]),
+                        lc.table_str(tbl), "table of node %s right after installing a snapshot is not the model's state at a "
+                        "position from which the node's next commands continue the common sequence" % n)
+            pos = max(cands)
+            stats["model.snapshot-positions-matched"] += 1
+        if T[pos] != lc.table_str(table):
+            return (T[pos], lc.table_str(table), "lock table of node %s at the end (position %d of the common sequence)" % (n, pos))
+        return None
 
 
 def run(ctx):
@@ -550,6 +713,26 @@ def run(ctx):
             if sig not in [x["signature"] for x in viols] and len(viols) < 4:
                 viols.append({"signature": sig, "what": "[directed stale schedule] " + v["what"],
                               "replay": {"kind": "cluster-stale", "U": U, "seed": seed}})
+    # directed `snapshot` schedules (real dump files, forced compaction, install on a lagging node, restart)
+    for i in range(ctx.scale(30, 500)):
+        U = rng.choice((4, 8, 10))
+        seed = rng.randrange(10 ** 6)
+        evs = snapshot_schedule(_random.Random(seed), U)
+        out = execute(ctx.repo, U, seed, evs, dumps=True)
+        cases += 1
+        seen.add("snapshot-%d-%d" % (U, seed))
+        for k, v in out["cov"].items():
+            cov["snap." + k] = cov.get("snap." + k, 0) + v
+        d = prefix_check(U, out)
+        if d and len(disagreements) < 3:
+            disagreements.append(d)
+        mb.add(U, out, {"schedule": "snapshot", "seed": seed})
+        if out["viols"]:
+            v = out["viols"][0]
+            sig = v["signature"] or SIG_MUTEX_SNAPSHOT
+            if sig not in [x["signature"] for x in viols] and len(viols) < 4:
+                viols.append({"signature": sig, "what": "[directed snapshot schedule] " + v["what"],
+                              "replay": {"kind": "cluster-snapshot", "U": U, "seed": seed}})
     n = ctx.scale(300, 6000)
     t_end = time.time() + ctx.budget_s * 0.5
     for i in range(n):
@@ -576,13 +759,17 @@ def run(ctx):
                           "replay": {"kind": "cluster-random", "U": U, "seed": seed, "events": [list(e) for e in evs[:out["first"] + 1]]}})
         if time.time() > t_end:
             break
-    disagreements += mb.check(ctx, 3 - len(disagreements)) if len(disagreements) < 3 else []
+    more, mstats = mb.check(ctx, 3)
+    disagreements = (disagreements + more)[:3]
+    cov.update(mstats)
     res = {"cases": cases, "distinct": len(seen), "coverage": dict(sorted(cov.items())), "samples": samples,
            "disagreements": disagreements, "violations": viols, "wall_s": round(time.time() - t0, 2)}
     need = ["try", "release", "tick", "cut", "answer.true", "answer.false", "held.1", "applied.cmds",
             "nodes.at.different.prefixes", "d19.race", "d19.split", "stale.freeze",
             "stale.pro.stale-while-fresh-lock-of-another-client", "stale.expect.holder-still-holds",
-            "stale.expect.competitor-refused"]
+            "stale.expect.competitor-refused", "snap.compact", "snap.restart",
+            "snap.snapshot.install.while-another-clients-lock-is-held", "snap.expect.competitor-refused",
+            "snap.expect.holder-still-holds", "model.snapshot-positions-matched"]
     missing = [k for k in need if not cov.get(k)]
     if missing and not viols:
         res["inconclusive"] = "coverage floor missed: " + ",".join(missing)
@@ -602,13 +789,17 @@ def search(ctx, unproved):
     for i in range(ctx.scale(300, 3000)):
         U = rng.choice((4, 8, 10, 12))
         seed = rng.randrange(10 ** 6)
-        out = execute(ctx.repo, U, seed, stale_schedule(_random.Random(seed), U))
+        if i % 2:
+            out, kind, dflt = execute(ctx.repo, U, seed, stale_schedule(_random.Random(seed), U)), "stale", SIG_MUTEX_STALE
+        else:
+            out = execute(ctx.repo, U, seed, snapshot_schedule(_random.Random(seed), U), dumps=True)
+            kind, dflt = "snapshot", SIG_MUTEX_SNAPSHOT
         if out["viols"]:
             v = out["viols"][0]
-            sig = v["signature"] or SIG_MUTEX_STALE
+            sig = v["signature"] or dflt
             if sig not in [x["signature"] for x in found]:
-                found.append({"signature": sig, "what": "[directed stale schedule] " + v["what"],
-                              "replay": {"kind": "cluster-stale", "U": U, "seed": seed}})
+                found.append({"signature": sig, "what": "[directed %s schedule] %s" % (kind, v["what"]),
+                              "replay": {"kind": "cluster-" + kind, "U": U, "seed": seed}})
         if len(found) >= 3 or time.time() > t_end:
             break
     return found
@@ -618,6 +809,8 @@ def replay(ctx, violation):
     rp = violation["replay"]
     if rp["kind"] == "cluster-d19":
         out = execute(ctx.repo, rp["U"], rp["seed"], d19_schedule(rp["U"]), use_batch=False)
+    elif rp["kind"] == "cluster-snapshot":
+        out = execute(ctx.repo, rp["U"], rp["seed"], snapshot_schedule(_random.Random(rp["seed"]), rp["U"]), dumps=True)
     elif rp["kind"] == "cluster-stale":
         out = execute(ctx.repo, rp["U"], rp["seed"], stale_schedule(_random.Random(rp["seed"]), rp["U"]))
     else:
